@@ -63,7 +63,7 @@ macro_rules! sym_logic {
             fn tol(real: f64, float: f64) -> Self { $T(mk(Node::Tol(real.to_bits(), float.to_bits()))) }
             fn k(v: f64) -> Self { $T::c(v) }
             fn is_symbolic() -> bool { true }
-            fn same_term(a: &Self, b: &Self) -> bool { a.0 == b.0 }
+            fn same_term(a: &Self, b: &Self) -> bool { ac_equal(a.0, b.0) }
             fn mask_prop(m: <Self as HasBoolMask>::Mask) -> Id { ($mask)(m) }
         }
     };
